@@ -1,2 +1,65 @@
-(* C08 -- statement file; proofs in Sess/ *)
-From SV Require Import Sess.Model.
+(* C08 -- session lifecycle follows the documented state machine; CLOSED is final. *)
+From Coq Require Import ZArith List.
+From Coq.Strings Require Import Byte.
+From SV Require Import Base.Bytes Base.Py Msg.Types Sess.Model Sess.Drain Sess.Wire Sess.Lifecycle.
+Import ListNotations.
+
+Theorem C08_closed_is_final :
+  forall d s c s' o, s_state s = CLOSED -> step d s c = (s', o) ->
+  s_state s' = CLOSED /\ s_in s' = s_in s /\ s_outstanding s' = s_outstanding s /\
+  match c with
+  | Drain a => s_out s' = snd (py_cut a (s_out s)) /\ o = ORetBytes (fst (py_cut a (s_out s)))
+  | Receive _ => s' = s /\ exists p, o = OProtoErr p
+  | _ => s' = s /\ (o = OLdapErr \/ exists e, o = OOther e)
+  end.
+Proof. exact closed_is_final. Qed.
+
+Theorem C08_closed_forever :
+  forall d cs s, s_state s = CLOSED -> s_state (fst (run d s cs)) = CLOSED.
+Proof. exact closed_forever. Qed.
+
+(* every step of every history is a documented transition, up to the one deviation pinned by the
+   existing test-suite (known finding) and crash outcomes (shown unreachable in C05/C09) *)
+Theorem C08_every_step_documented :
+  forall d s c s' o, s_state s <> CLOSED -> step d s c = (s', o) ->
+  documented (s_role s) (s_state s) c o (s_state s') \/
+  pinned_deviation (s_role s) (s_state s) c o (s_state s') \/
+  (exists k, o = OOther (Crash k)).
+Proof. exact lifecycle_step. Qed.
+
+Theorem C08_bind_needs_nothing_outstanding :
+  forall d s n a cs s' id, step d s (CBind n a cs) = (s', ORetId id) -> s_role s = Client ->
+  s_outstanding s = [] /\ s_state s' = BINDING.
+Proof. exact bind_needs_nothing_outstanding. Qed.
+
+Theorem C08_binding_gate :
+  forall d s c s' o, s_state s = BINDING -> step d s c = (s', o) -> accepted o = true ->
+  match c with
+  | CBind _ _ _ | SBindResponse _ _ _ _ _ _ | Unbind => True
+  | SExtendedResponse _ n _ _ _ _ _ => is_notice_name n = true
+  | _ => False
+  end.
+Proof. exact binding_gate. Qed.
+
+Theorem C08_unbind_closes :
+  forall d s s', step d s Unbind = (s', ORetNone) -> s_state s' = CLOSED /\ s_outstanding s' = [].
+Proof. exact unbind_closes. Qed.
+
+Theorem C08_protocol_error_closes :
+  forall d s data s' p, step d s (Receive data) = (s', OProtoErr p) -> s_state s' = CLOSED.
+Proof. exact protocol_error_closes. Qed.
+
+(* the strict statement is false of the faithful model: witness = LDAPServer().bind_response(1) *)
+Theorem C08_strict_reading_refuted :
+  exists d s c s' o, step d s c = (s', o) /\ s_state s <> CLOSED /\
+    ~ documented (s_role s) (s_state s) c o (s_state s') /\ ~ (exists k, o = OOther (Crash k)).
+Proof. exact strict_lifecycle_refuted. Qed.
+
+Print Assumptions C08_closed_is_final.
+Print Assumptions C08_closed_forever.
+Print Assumptions C08_every_step_documented.
+Print Assumptions C08_bind_needs_nothing_outstanding.
+Print Assumptions C08_binding_gate.
+Print Assumptions C08_unbind_closes.
+Print Assumptions C08_protocol_error_closes.
+Print Assumptions C08_strict_reading_refuted.
